@@ -5,6 +5,7 @@ From SP Require Import Design.Flat Design.Layout Comb.CombModel Random.Enum Rand
 From SP Require Comb.CombSpec Comb.PermProofs.
 Import ListNotations.
 Open Scope nat_scope.
+Set Default Proof Using "All".
 
 Definition the_crossing (fb : flat) : list nat :=
   match fl_crossings fb with [c] => c | _ => [] end.
@@ -25,6 +26,44 @@ Qed.
 
 Lemma nat_list_eqb_refl a : nat_list_eqb a a = true.
 Proof. induction a; cbn; [reflexivity | rewrite Nat.eqb_refl; exact IHa]. Qed.
+
+Lemma filter_all {A} (p : A -> bool) xs : (forall x, In x xs -> p x = true) -> filter p xs = xs.
+Proof.
+  induction xs as [|x t IH]; intros H; cbn; [reflexivity|].
+  rewrite (H x (or_introl eq_refl)). f_equal. apply IH. intros y Hy. apply H. right. exact Hy.
+Qed.
+
+Lemma filter_none {A} (p : A -> bool) xs : (forall x, In x xs -> p x = false) -> filter p xs = [].
+Proof.
+  induction xs as [|x t IH]; intros H; cbn; [reflexivity|].
+  rewrite (H x (or_introl eq_refl)). apply IH. intros y Hy. apply H. right. exact Hy.
+Qed.
+
+Lemma prodZl_ones l : (forall x, In x l -> x = 1%Z) -> prodZl l = 1%Z.
+Proof.
+  unfold prodZl. intros H. assert (G : forall acc, fold_left Z.mul l acc = acc).
+  { induction l as [|x t IH]; intros acc; cbn; [reflexivity|].
+    rewrite (H x (or_introl eq_refl)). rewrite Z.mul_1_r. apply IH. intros y Hy. apply H. right. exact Hy. }
+  apply G.
+Qed.
+
+Lemma in_combine_fst {A B} (xs : list A) (ys : list B) p : In p (combine xs ys) -> In (fst p) xs.
+Proof. destruct p. intros H. eapply in_combine_l. exact H. Qed.
+
+Lemma fold_add_ones {A} (l : list A) acc : fold_left Z.add (map (fun _ => 1%Z) l) acc = (acc + Z.of_nat (length l))%Z.
+Proof.
+  revert acc. induction l as [|x t IH]; intros acc; cbn [map fold_left length]; [lia|].
+  rewrite IH. lia.
+Qed.
+
+Lemma forallb_ones {A} (l : list A) : forallb (Z.eqb 1) (map (fun _ => 1%Z) l) = true.
+Proof. induction l; cbn; [reflexivity | exact IHl]. Qed.
+
+Lemma all_equal_ones {A} (l : list A) : all_equal_Z (map (fun _ => 1%Z) l) = true.
+Proof. destruct l; cbn; [reflexivity|]. apply forallb_ones. Qed.
+
+Lemma fact_nat_pos k : (0 < fact_nat k)%Z.
+Proof. induction k; cbn [fact_nat]; [lia|]. lia. Qed.
 
 Section F0.
 Variable fb : flat.
@@ -106,17 +145,7 @@ Proof.
   apply nth_error_In in E. apply (f0_basic f0_unpack) in E. apply E.
 Qed.
 
-Lemma filter_all {A} (p : A -> bool) xs : (forall x, In x xs -> p x = true) -> filter p xs = xs.
-Proof.
-  induction xs as [|x t IH]; intros H; cbn; [reflexivity|].
-  rewrite (H x (or_introl eq_refl)). f_equal. apply IH. intros y Hy. apply H. right. exact Hy.
-Qed.
 
-Lemma filter_none {A} (p : A -> bool) xs : (forall x, In x xs -> p x = false) -> filter p xs = [].
-Proof.
-  induction xs as [|x t IH]; intros H; cbn; [reflexivity|].
-  rewrite (H x (or_introl eq_refl)). apply IH. intros y Hy. apply H. right. exact Hy.
-Qed.
 
 Lemma f0_not_excluded di : is_excluded_combination fb di = false.
 Proof.
@@ -148,16 +177,7 @@ Proof.
   apply nth_error_In in E. rewrite (f0_unit f0_unpack f lv Hf E). reflexivity.
 Qed.
 
-Lemma prodZl_ones l : (forall x, In x l -> x = 1%Z) -> prodZl l = 1%Z.
-Proof.
-  unfold prodZl. intros H. assert (G : forall acc, fold_left Z.mul l acc = acc).
-  { induction l as [|x t IH]; intros acc; cbn; [reflexivity|].
-    rewrite (H x (or_introl eq_refl)). rewrite Z.mul_1_r. apply IH. intros y Hy. apply H. right. exact Hy. }
-  apply G.
-Qed.
 
-Lemma in_combine_fst {A B} (xs : list A) (ys : list B) p : In p (combine xs ys) -> In (fst p) xs.
-Proof. destruct p. intros H. eapply in_combine_l. exact H. Qed.
 
 Lemma f0_combination_weight ci : In ci f0_instances -> combination_weight fb ci = 1%Z.
 Proof.
@@ -169,14 +189,7 @@ Qed.
 Lemma f0_cweights : map (fun ci => (combination_weight fb ci * 1)%Z) f0_instances = map (fun _ => 1%Z) f0_instances.
 Proof. apply map_ext_in. intros ci H. rewrite f0_combination_weight by exact H. reflexivity. Qed.
 
-Lemma fold_add_ones {A} (l : list A) acc : fold_left Z.add (map (fun _ => 1%Z) l) acc = (acc + Z.of_nat (length l))%Z.
-Proof.
-  revert acc. induction l as [|x t IH]; intros acc; cbn [map fold_left length]; [lia|].
-  rewrite IH. lia.
-Qed.
 
-Lemma forallb_ones {A} (l : list A) : forallb (Z.eqb 1) (map (fun _ => 1%Z) l) = true.
-Proof. induction l; cbn; [reflexivity | exact IHl]. Qed.
 
 Lemma f0_main_factors : main_factors fb 0 = ROk c.
 Proof. unfold main_factors, no_crossings. rewrite (f0_crossings f0_unpack). reflexivity. Qed.
@@ -278,11 +291,7 @@ Definition f0_perms (first_n : nat) : Z := CombSpec.ffact (Z.of_nat f0_q) first_
 Definition f0_shape (first_n : nat) : shape :=
   {| sh_cross := f0_perms first_n; sh_combs := map (fun _ => 1%Z) f0_instances; sh_inds := f0_inds (Z.of_nat first_n) |}.
 
-Lemma all_equal_ones {A} (l : list A) : all_equal_Z (map (fun _ => 1%Z) l) = true.
-Proof. destruct l; cbn; [reflexivity|]. apply forallb_ones. Qed.
 
-Lemma fact_nat_pos k : (0 < fact_nat k)%Z.
-Proof. induction k; cbn [fact_nat]; [lia|]. lia. Qed.
 
 Lemma f0_perms_div (first_n : nat) : first_n <= f0_q ->
   (fact_nat f0_q / fact_nat (f0_q - first_n))%Z = f0_perms first_n.
